@@ -274,6 +274,9 @@ func (t *T) load() error {
 		if fi.coq == "" {
 			fi.coq = fc.Name
 		}
+		if coqKeywords[fi.coq] {
+			return fmt.Errorf("function %s.%s: %q cannot be the name of a Coq definition (give \"coq\" in the configuration)", fc.Recv, fc.Name, fi.coq)
+		}
 		t.reserved[fi.coq] = true
 	}
 	for _, g := range t.cfg.Globals {
